@@ -8,5 +8,6 @@ set -e
 (cd sim/alearef && cargo build --release --offline -q && ./target/release/alearef > target/alea_ref.txt)
 (cd sim && cargo build --release --offline -q)
 # warm the Miri sysroot and dependency build for the C04 thorough cross-check (best effort)
+(cd sim/miri_c18 && MIRIFLAGS="-Zmiri-disable-isolation -Zmiri-deterministic-floats -Zmiri-seed=0" cargo +nightly miri run --offline >/dev/null 2>&1 || true)
 (cd sim/miri_c04 && MIRIFLAGS="-Zmiri-disable-isolation" cargo +nightly miri run --offline -- --only Vneg 0 >/dev/null 2>&1 || true)
 CSIM_ROOT="$ROOT" sim/target/release/csim selftest alea
